@@ -40,6 +40,15 @@ CHECKS = {
         "the generator's renderer is cross-checked against an independent strict scanner on every case (harness self-test)",
         "property-based testing: exhaustive small-tree enumeration + Hypothesis sampling; oracle = generated tree (inverse / metamorphic over renderings)",
     ),
+    "C08": (
+        "exploration",
+        "Every fault operator (truncation at every token boundary / byte, end-tag deletion, renaming, duplication, transposition, stray "
+        "end tag at every boundary, text after end tag, second root) applied at every position of every small well-formed body "
+        "(<=4 nodes, enumerated) and of Hypothesis-sampled larger bodies and real request/response bodies; a mutant is asserted only "
+        "when an independent strict scanner classifies it MUST_REJECT.",
+        "trusts the strict scanner (self-tested against the renderer on every C02 case); ambiguous dataless-start-tag mutants are not asserted",
+        "property-based testing / fault injection: enumerated mutation operators over generated documents with a three-valued reference classifier as oracle",
+    ),
 }
 
 PENDING_REASON = "check not built yet in this round (planned in DESIGN.md §3); not claimed until its machinery exists and is quiet on the unchanged tree"
